@@ -31,7 +31,7 @@ RULE = ('one evaluation = one seeded run: a single-client sequence of 10-120 map
         'SHA-256 of program or event log')
 ASSUMPTIONS = ['Index.setdefault is checked as the documented get/add loop (insert attempts + final lookup), not as one indivisible step',
                'key alphabet avoids pairs that Python treats as equal but diskcache documents as distinct (True/1, 2**63/2.0**63)']
-PROBES = ('lifecycle', 'from_fanout', 'from_django', 'lock_wait', 'file_backed_replace')
+PROBES = ('own_temporary_directory', 'lifecycle', 'from_fanout', 'from_django', 'lock_wait', 'file_backed_replace')
 TECHNIQUE = 'deterministic simulation + differential testing against collections.OrderedDict; seeded schedules + linearizability (no miss tolerance) for concurrent use'
 LEVEL_TEXT = ('seeded exploration of mapping-call sequences with lifecycle events against OrderedDict, and of 2-3 client '
               'interleavings decided by a linearizability search in which a lookup of a continuously present key may never miss.')
@@ -115,7 +115,7 @@ def gen_case(seed, tier):
         else:
             op = {'op': rng.choice(('reopen', 'pickle', 'restart'))}
         prog.append(op)
-    cfg = {'kind': 'seq', 'mfs': mfs, 'origin': rng.choice(('direct', 'direct', 'fanout', 'django')),
+    cfg = {'kind': 'seq', 'mfs': mfs, 'origin': rng.choice(('direct', 'direct', 'fanout', 'django', 'temp')),
            # the parent an Index is obtained from may have been built with its own eviction settings: an Index never evicts
            'parent_opts': rng.choice(({}, {}, {'eviction_policy': 'least-recently-used', 'size_limit': 2 ** 16, 'cull_limit': 10},
                                       {'eviction_policy': 'least-frequently-used', 'cull_limit': 2, 'statistics': 1, 'tag_index': 1}))}
@@ -249,6 +249,10 @@ def run_seq(case):
             parent = mod.DjangoCache(world.path('dj'), {'SHARDS': 2, 'OPTIONS': dict(cfg.get('parent_opts', {}))})
             ix = parent.index('ix')
             probes['from_django'] = 1
+        elif cfg['origin'] == 'temp':
+            # no directory given: the object makes its own, which then belongs to everything that refers to it by path
+            ix = dc.Index()
+            probes['own_temporary_directory'] = 1
         else:
             ix = dc.Index(world.path('ix'))
         directory = ix.directory
